@@ -19,7 +19,12 @@ class ConvertBase:
 
         buffer = target.empty(len(src))
         for to_, from_ in mapping.items():
+            # Assign by position: the source rows may carry any labels (after a
+            # filter, a sort or stacking), the buffer's are always 0..n-1.
             buffer.__setattr__(
-                to_, src.__getattribute__(from_) if isinstance(from_, str) else from_
+                to_,
+                src.__getattribute__(from_).to_numpy()
+                if isinstance(from_, str)
+                else from_,
             )
         return buffer
